@@ -382,6 +382,8 @@ def oracle_c04(cfgl, lines):
     woi = cfg.get("policy") == "woi"
     wrap = cfg.get("wrap") == "1"
     prev = ""
+    gate_shut = False
+    gated_write = False
     for n, l in enumerate(lines):
         name, kv, r, nw, ew, wl = parse(l)
         if name != "crashprobe":
@@ -390,6 +392,17 @@ def oracle_c04(cfgl, lines):
             prev = prev_ if prev_ == "memevict" else prev
         if r in ("PANIC", "HANG") and name != "crashprobe":
             return (n, f"{name}: {r}")
+        if name == "iogate":
+            gate_shut, gated_write = True, False
+        if name == "ioopen":
+            gate_shut = False
+        if name in ("ins", "sins", "rm") and gate_shut:
+            # a delete reaches the device only through the tombstone log
+            gated_write = name != "rm" or cfg.get("tomb") == "1"
+        if name == "waitprobe" and gate_shut and gated_write and "returned=1" in r:
+            # wait() is the acknowledgement: it may not return while a device write issued before it is still in flight
+            return (n, "wait() returned although the device writes of the preceding insert / delete were still held back: "
+                       "a crash now loses an acknowledged write")
         if name in ("ins", "sins"):
             k, v = int(kv["k"]), int(kv["ver"])
             ever.setdefault(k, set()).add(v); pending.setdefault(k, []).append(v)
